@@ -221,3 +221,14 @@ Lemma get_leading_proteins_sound s ps l x :
 Proof.
   intros HI H Hx. destruct (leading_loop_sound s HI ps [] l x H Hx) as [[]|Hr]. exact Hr.
 Qed.
+
+(* a re-index after an outside edit of the group list forgets every protein that left the collection *)
+Lemma reindex_forgets_departed s gs p :
+  (forall g, In g gs -> ~ In p g) ->
+  get_protein_group_idxs (step s (OReplace gs)) [p] = Ok [(-1)%Z] /\
+  get_protein_groups (step s (OReplace gs)) [p] = Ok [].
+Proof.
+  intros H. split; [apply get_protein_group_idxs_unknown | apply get_protein_groups_unknown];
+    try apply inv_init; try reflexivity; exact H.
+Qed.
+
